@@ -71,22 +71,18 @@ theorem world_grp_wf (hord : ∀ l, (ord l).Perm l) (k : Val) (evs : List Ev) : 
           simp only [World.step]
           split
           · exact (by simpa [grpLog] using ih _ hw)
-          · split
-            · simpa [grpLog] using ih ⟨true, some st, ch, sk⟩ (by simpa using hw)
-            · rw [run_dead key ord r _ rfl]
-              simp only [pushOuter_grp, St.onTerm, grpLog_append, grpLog_drainOut, grpLog,
-                List.append_nil, total_perm k (hord st.subjects)]
-              exact WF_replicate_le_one _ _ (hst k)
+          · rw [run_dead key ord r _ rfl]
+            simp only [pushOuter_grp, St.onTerm, grpLog_append, grpLog_drainOut, grpLog,
+              List.append_nil, total_perm k (hord st.subjects)]
+            exact WF_replicate_le_one _ _ (hst k)
         | complete =>
           simp only [World.step]
           split
           · exact (by simpa [grpLog] using ih _ hw)
-          · split
-            · simpa [grpLog] using ih ⟨true, some st, ch, sk⟩ (by simpa using hw)
-            · rw [run_dead key ord r _ rfl]
-              simp only [pushOuter_grp, St.onTerm, grpLog_append, grpLog_drainOut, grpLog,
-                List.append_nil, total_perm k (hord st.subjects)]
-              exact WF_replicate_le_one _ _ (hst k)
+          · rw [run_dead key ord r _ rfl]
+            simp only [pushOuter_grp, St.onTerm, grpLog_append, grpLog_drainOut, grpLog,
+              List.append_nil, total_perm k (hord st.subjects)]
+            exact WF_replicate_le_one _ _ (hst k)
       | unsub =>
         simp only [World.step]
         rw [run_dead key ord r _ rfl]
@@ -137,24 +133,20 @@ theorem world_outer (evs : List Ev) : ∀ w : World,
           simp only [World.step]
           split
           · simpa [outerLog] using ih ⟨sd, some st, ch, sk⟩
-          · split
-            · simpa [outerLog] using ih ⟨true, some st, ch, sk⟩
-            · rw [run_dead key ord r _ rfl]
-              refine ⟨[.error err], by simp, ?_⟩
-              simp only [St.onTerm]
-              rw [(pushOuter_outer _ ch).2]
-              simp [outerLog_append, outerLog_drainOut, outerLog]
+          · rw [run_dead key ord r _ rfl]
+            refine ⟨[.error err], by simp, ?_⟩
+            simp only [St.onTerm]
+            rw [(pushOuter_outer _ ch).2]
+            simp [outerLog_append, outerLog_drainOut, outerLog]
         | complete =>
           simp only [World.step]
           split
           · simpa [outerLog] using ih ⟨sd, some st, ch, sk⟩
-          · split
-            · simpa [outerLog] using ih ⟨true, some st, ch, sk⟩
-            · rw [run_dead key ord r _ rfl]
-              refine ⟨[.complete], by simp, ?_⟩
-              simp only [St.onTerm]
-              rw [(pushOuter_outer _ ch).2]
-              simp [outerLog_append, outerLog_drainOut, outerLog]
+          · rw [run_dead key ord r _ rfl]
+            refine ⟨[.complete], by simp, ?_⟩
+            simp only [St.onTerm]
+            rw [(pushOuter_outer _ ch).2]
+            simp [outerLog_append, outerLog_drainOut, outerLog]
       | unsub =>
         simp only [World.step]
         rw [run_dead key ord r _ rfl]
